@@ -45,7 +45,7 @@ Proof.
   rewrite possi_loop_S in E. rewrite possi_loop_S. cbv zeta in *.
   destruct (eqc (peek i) 58).
   - destruct (parse_multiarch i) as [[a k]| |]; [now apply IH|exact E|exact E].
-  - destruct (is_ws (peek i) || eqc (peek i) 40).
+  - destruct (is_ws (peek i) || eqc (peek i) 40 || eqc (peek i) 91 || eqc (peek i) 60).
     + destruct (controllers f p i) as [[p1 k]| |] eqn:C.
       * rewrite (controllers_mono f _ _ _ C) by discriminate. now apply IH.
       * rewrite (controllers_mono f _ _ _ C) by discriminate. exact E.
